@@ -218,8 +218,16 @@ def check(prop: str, tier: str, verif_seed: int) -> int:
         k = next(x for x in core.load_known() if x['id'] == kid)
         print(f'KNOWN-FINDING: property={prop} {k["what"]} [{kid}; seen in {cnt} session(s)]', flush=True)
     for s in harness[:5]:
+        where = ''
+        if 'spec' in s:
+            # kept for diagnosis (python -m biosim replay <file>); a harness error is not a verdict on the property
+            d_ = os.path.join(os.environ.get('BIOSIM_REPLAY_DIR') or os.path.join(core.VERIF_ROOT, 'replays'), prop)
+            os.makedirs(d_, exist_ok=True)
+            where = os.path.join(d_, f'harness-{s["seed"]}.json')
+            with open(where, 'w', encoding='utf-8') as f_:
+                json.dump(s['spec'], f_, indent=1, sort_keys=True)
         print(f'HARNESS-ERROR property={prop} seed={s["seed"]} status={s["status"]} op={s.get("error_op")} '
-              f'faults={s["faults"]}\n{(s.get("error") or "")[-1500:]}', flush=True)
+              f'faults={s["faults"]} session={where}\n{(s.get("error") or "")[-1500:]}', flush=True)
     if harness or worker_failed:
         exit_code = 2 if exit_code == 0 else exit_code
         if worker_failed:
